@@ -193,6 +193,65 @@ def check_value_equality():
     return msgs
 
 
+VTZ = """BEGIN:VTIMEZONE
+TZID:{tzid}
+BEGIN:STANDARD
+DTSTART:16011028T030000
+RRULE:FREQ=YEARLY;BYDAY=-1SU;BYMONTH=10
+TZOFFSETFROM:{dst}
+TZOFFSETTO:{std}
+END:STANDARD
+BEGIN:DAYLIGHT
+DTSTART:16010325T020000
+RRULE:FREQ=YEARLY;BYDAY=-1SU;BYMONTH=3
+TZOFFSETFROM:{std}
+TZOFFSETTO:{dst}
+END:DAYLIGHT
+END:VTIMEZONE
+"""
+
+
+def check_copy_histories():
+    """copies of trees whose date-times lie in zones built from VTIMEZONE definitions, after OTHER definitions of the same TZID were
+    parsed (process-wide zone cache): the copy equals the original both ways, serialises identically and keeps every UTC offset"""
+    import icalendar
+    from datetime import datetime
+    msgs = []
+    for prov in ("zoneinfo", "pytz"):
+        icalendar.timezone.tzp.use(prov)
+        try:
+            tzid = "Customized Time Zone"
+            first = ("BEGIN:VCALENDAR\r\nVERSION:2.0\r\n" + VTZ.format(tzid=tzid, std="+0100", dst="+0200").replace("\n", "\r\n")
+                     + f"BEGIN:VEVENT\r\nUID:1\r\nDTSTART;TZID={tzid}:20240701T090000\r\nEND:VEVENT\r\nEND:VCALENDAR\r\n")
+            parsed = icalendar.Calendar.from_ical(first)            # this definition is now cached under the TZID
+            vtz = icalendar.Timezone.from_ical(VTZ.format(tzid=tzid, std="-0500", dst="-0400").replace("\n", "\r\n"))
+            other = vtz.to_tz(lookup_tzid=False)
+            ev = icalendar.Event()
+            ev.add("uid", "2")
+            ev.add("dtstart", datetime(2024, 7, 1, 12, 0, tzinfo=other) if not hasattr(other, "localize") else other.localize(datetime(2024, 7, 1, 12, 0)))
+            cal = icalendar.Calendar()
+            cal.add("version", "2.0")
+            cal.add_component(vtz)
+            cal.add_component(ev)
+            for label, tree in (("tree built after another definition of its TZID was parsed", cal), ("parsed calendar with a custom VTIMEZONE", parsed)):
+                for how, mk in (("deepcopy", lambda t=tree: copy.deepcopy(t)), ("pickle", lambda t=tree: pickle.loads(pickle.dumps(t)))):
+                    try:
+                        c = mk()
+                        if not (c == tree and tree == c):
+                            msgs.append(f"[{prov}] {how} of a {label} is not equal to the original")
+                        if c.to_ical() != tree.to_ical():
+                            msgs.append(f"[{prov}] {how} of a {label} serialises differently")
+                        o1 = [x["DTSTART"].dt.utcoffset() for x in tree.walk("VEVENT")]
+                        o2 = [x["DTSTART"].dt.utcoffset() for x in c.walk("VEVENT")]
+                        if o1 != o2:
+                            msgs.append(f"[{prov}] {how} of a {label} changes the UTC offset of DTSTART: {o1} -> {o2}")
+                    except Exception as ex:  # noqa
+                        msgs.append(f"[{prov}] {how} of a {label} raises {type(ex).__name__}: {ex}")
+        finally:
+            icalendar.timezone.tzp.use_default()
+    return msgs
+
+
 def run(b, tier, seed, findings, known_seen):
     import icalendar
     rnd = random.Random(seed)
@@ -216,6 +275,12 @@ def run(b, tier, seed, findings, known_seen):
     for m in check_value_equality():
         cases += 1
         fails.setdefault("value" + m[:40], {"witness": {"value_equality": True}, "detail": m, "kind": "eq"})
+    for m in check_copy_histories():
+        cases += 1
+        if m.startswith("[pytz]") and "raises UnknownTimeZoneError" in m and "pytz_custom_zone_copy" in classes:
+            seen.add(classes["pytz_custom_zone_copy"])          # listed finding C20-F2
+            continue
+        fails.setdefault("hist" + m[:60], {"witness": {"copy_history": True}, "detail": m, "kind": "copy"})
     b.cases = cases
     b.nontrivial = cases
     b.failures = list(fails.values())[:12]
@@ -241,6 +306,8 @@ def replay_witness(w):
     from vc.common import findings_for
     if w.get("value_equality"):
         return "; ".join(check_value_equality()) or None
+    if w.get("copy_history"):
+        return "; ".join(check_copy_histories()) or None
     r2 = random.Random(w["tree_seed"])
     cal = icalendar.Calendar()
     cal.add("version", "2.0")
